@@ -738,6 +738,8 @@ class Interp:
             if fieldpats:
                 for fp in fieldpats:
                     item = val.fields.get(fp["name"])
+                    if item is None and fp["name"].isdigit() and int(fp["name"]) < len(val.args):
+                        item = val.args[int(fp["name"])]   # tuple-variant matched with `V { 0: x }` (the `?` desugaring)
                     if item is None:
                         item = Term("field:" + fp["name"], (val,), fp["pat"].get("ty"))
                     nxt = []
